@@ -27,6 +27,7 @@ EXPLANATION = (
     "send looks the callback up and queues under remote_key, recv and callback registration use key; in recv the `raise` for an empty "
     "queue with block=False is reached from the emptiness test without passing a sleep call or a loop back edge, and the returned "
     "message is the one popped from the head; in connect the callbacks are registered before the key is added to _open_sockets."
+    " Whole-queue operations on _messages (clear, re-assignment, sort, del) are violations wherever they occur. C18.W: the receive wrappers reach hub.recv under no condition on the socket's own state. C18.Z: no truthiness test on an int-typed value."
 )
 LEVEL_TEXT = (
     "Static analysis, structure only: necessary shape conditions (FIFO, key roles, non-blocking path, publish-after-init) at every "
